@@ -297,3 +297,73 @@ def c07(ctx):
         pipeline_trace_validate(ctx, c, t3, "C07")
     if not model_ok and not ctx.mismatches:
         raise Infra("Pipeline.tla fails with the live constants %s but no schedule reproduced a wrong outcome on the real code:\n%s" % (c, m["out"][-2500:]))
+
+
+@prop("C08")
+def c08(ctx):
+    ctx.rule = ("M: in JsonText.tla the newline-delimited recogniser is the line-wise definition (LF ends a document, a document may not span "
+                "lines, blank lines are skipped); G: every viable prefix of length <= L over [ ] { } 1 , SP CR LF \" : in ND mode replayed "
+                "into ParseND (both kernels, both string modes, block seams) with verdict and per-root documents compared, and each "
+                "non-blank line cross-checked against Parse; V: generated multi-line inputs (CRLF, blank lines, missing final newline) "
+                "and their mutations validated by TLC. Non-trivial = >= 2 bytes starting with [ or {.")
+    rep = enum_replay(ctx, "nd", "C08")
+    d = ctx.dir("ndlines")
+    ctx.vh(["g-ndlines", "-seed", str(ctx.seed), "-maxlines", "3" if quick(ctx) else "4", "-property", "C08"])
+    record_and_validate_text(ctx, "C08", True, 300 if quick(ctx) else 4000, 200000 if quick(ctx) else 3000000)
+    ctx.exhaustive = True
+
+
+@prop("C03")
+def c03(ctx):
+    import numexact
+    ctx.rule = ("M: Decimal!Classify is total, matches hand-checked anchors at 2^63 / 2^64 / -2^63 and sets the overflow class exactly for "
+                "out-of-range integer syntax (invariants of Number.tla over every number-grammar string <= L and a boundary family built by "
+                "digit arithmetic in the spec); G: each such literal is parsed as array element and object value and Type, exact Int/Uint "
+                "(compared as decimal text with the spec's canonical integer) and FloatFlags are compared with the spec; V: stratified "
+                "float literals (every decade 1e-323..1e308, halfway cases between adjacent doubles and their neighbours, subnormals, "
+                "17-40 digit mantissas): bits compared with strconv, and a sample re-decided exactly by Apalache (big-integer "
+                "inequality L+F <= 2V <= F+H with ties-to-even, power tables verified in the same run). Non-trivial = integer-syntax "
+                "literal, or a literal longer than 8 bytes, or a recorded float case.")
+    ctx.trusted = ["strconv.ParseFloat for float values outside the Apalache sample"]
+    q = quick(ctx)
+    r = ctx.tlc("Number", consts={"MaxLen": 6 if q else 8}, dump="states", label="number grammar + boundaries")
+    d = ctx.dir("num")
+    f1 = os.path.join(d, "floats1.ndjson")
+    ctx.vh(["g-num", "-dump", r["dump"], "-expect", str(r["distinct"]), "-floats", f1, "-property", "C03"])
+    os.remove(r["dump"])
+    f2 = os.path.join(d, "floats2.ndjson")
+    ctx.vh(["v-floats", "-records", f2, "-seed", str(ctx.seed), "-n", "300" if q else "20000", "-property", "C03"])
+    recs = []
+    for fn in (f2, f1):
+        for line in open(fn):
+            x = json.loads(line)
+            recs.append((x["lit"], int(x["bits"], 16)))
+    import random
+    rnd = random.Random(ctx.seed)
+    rnd.shuffle(recs)
+    checked, failing = numexact.decide_rounding(ctx, recs, 4 if q else 32, 12 if q else 40, timeout=400 if q else 1200)
+    ctx.counters["apalache_exact_rounding_cases"] = checked
+    ctx.extra["obligations"] = checked + len(failing)
+    ctx.extra["discharged"] = checked
+    log("[apalache] exact rounding decided for %d cases, %d failing" % (checked, len(failing)))
+    for lit, bits in failing:
+        ctx.mismatches.append({"property": "C03", "sig": "apalache-rounding:%s" % lit, "text": "[%s]" % lit,
+                               "want": "the correctly rounded float64", "got": "%016x" % bits,
+                               "detail": "rejected by the exact big-integer rounding inequality (Apalache)"})
+    if checked == 0 and not failing:
+        raise Infra("no Apalache batch completed")
+
+
+@prop("C12")
+def c12(ctx):
+    ctx.rule = ("One TLC state per (document, query) pair of Lookup.tla with the required answer attached: FindKey for every present/absent "
+                "key (incl. empty, equal-length and duplicate keys), FindPath and FindElement for every key path of length <= 3 (incl. "
+                "through non-objects), ForEach with every subset of keys as filter (unique-key objects), Parse/Map/Lookup, "
+                "Array.AsInteger/AsUint64/AsFloat/AsString(Cvt) on homogeneous and mixed arrays, and Int/Uint/Float on the exact "
+                "boundaries 2^63, 2^64, -2^63 and their neighbours as int, uint and float; every state is replayed into the real API. "
+                "M: FindKey/FindPath consistency, filter subsequence and range sanity invariants. Non-trivial = object with >= 2 members, "
+                "path of length >= 2, non-empty filter, non-empty array, or any number query.")
+    r = ctx.tlc("MC_Lookup", dump="states", label="queries", timeout=1200)
+    ctx.vh(["g-lookup", "-dump", r["dump"], "-expect", str(r["distinct"]), "-property", "C12"])
+    os.remove(r["dump"])
+    ctx.exhaustive = True
